@@ -12,6 +12,18 @@ import (
 )
 
 func init() {
+	replayers["C14/flag-order"] = func(c *Ctx, raw json.RawMessage) string {
+		var cs struct {
+			D Directive
+			V int
+		}
+		if json.Unmarshal(raw, &cs) == nil && cs.D.Verb != 0 {
+			return c14Wrappers(cs.D, cs.V)
+		}
+		var d Directive
+		json.Unmarshal(raw, &d)
+		return c14RoundTrip(d)
+	}
 	replayers["C14/nested-print"] = func(c *Ctx, raw json.RawMessage) string {
 		var cs struct {
 			How int
@@ -470,6 +482,27 @@ func checkC14(c *Ctx) {
 		if i%20011 == 3 {
 			w.Sample(map[string]interface{}{"directive": d.String(), "MakeFormat": st.Fmt, "justV": st.JustV})
 		}
+	})
+	// flags written in every ORDER and repeated (the product above writes them in one canonical order only)
+	fo := flagOrderDirectives()
+	c.Section("C14/flag-order", map[string]interface{}{"directives": len(fo), "flag_texts": "all ordered pairs and triples of the five flag characters", "checked": "state round trip per printer; wrappers and forwarder print like the operand"}, len(fo), func(i int, w *Worker) {
+		d := fo[i]
+		w.Eval()
+		if dt := c14RoundTrip(d); dt != "" {
+			w.Fail("roundtrip", d, dt)
+		}
+		for _, vi := range []int{1, 7, 10, 15} {
+			w.Eval()
+			pv, pan := recoverTo(func() {
+				if dt := c14Wrappers(d, vi); dt != "" {
+					w.Fail("wrappers", map[string]interface{}{"D": d, "V": vi}, dt)
+				}
+			})
+			if pan {
+				w.Fail("panic", map[string]interface{}{"D": d, "V": vi}, fmt.Sprint("panic: ", pv))
+			}
+		}
+		w.Seen(uint64(i))
 	})
 	// the state seen by a formatter must not depend on the directive that precedes it in the same format
 	firsts := []string{"%5d|", "%-12.3f|", "%+x|", "%#v|", "%08.2f|", "%*d|", "% d|", "%.7s|"}
